@@ -56,7 +56,16 @@ func (j *JsonConverter) importSchema() error {
 func (j *JsonConverter) importFullType(fullType *FullType) (err error) {
 	switch fullType.Kind {
 	case SCALAR:
-		j.doc.ImportScalarTypeDefinition(fullType.Name, fullType.Description)
+		var directiveRefs []int
+		if fullType.SpecifiedByURL != nil {
+			value := ast.Value{
+				Kind: ast.ValueKindString,
+				Ref:  j.doc.ImportStringValue([]byte(*fullType.SpecifiedByURL), false),
+			}
+			j.doc.AddValue(value)
+			directiveRefs = append(directiveRefs, j.doc.ImportDirective(SpecifiedByDirectiveName, []int{j.doc.ImportArgument("url", value)}))
+		}
+		j.doc.ImportScalarTypeDefinitionWithDirectives(fullType.Name, fullType.Description, directiveRefs)
 	case OBJECT:
 		err = j.importObject(fullType)
 	case ENUM:
